@@ -64,6 +64,27 @@ ANGLES2 = {
 }
 ORDER2 = ["boundary", "ordering", "errorpath", "defaults", "numeric"]
 
+ANGLES3 = {
+    "plainslip": "PLAIN SLIP IN THE MAIN PATH: no exotic trigger at all. The break must be a small, ordinary slip (one token, one "
+                 "operator, one index, one swapped pair of arguments, one wrong sign) in code that EVERY ordinary run executes, "
+                 "and it must change the outcome of ordinary runs with the bundled agents and samples/-like configurations - yet the "
+                 "681 tests still pass. Look for what the tests do not pin down (they check many things only loosely).",
+    "symmetric": "SYMMETRIC CODE, ONE SIDE WRONG: pams has many pairs of near-identical blocks (buy / sell, before / after, normal / "
+                 "high-frequency agents, begin / end, market / index market, set / remove). Put the break into exactly ONE of the two "
+                 "twins (a wrong variable copied from the other twin, a condition not mirrored), so that only one side misbehaves.",
+    "scale": "NEEDS SIZE: the break must need a size that unit-sized scenarios do not have - a hundred or more agents, several "
+             "hundred steps (pams stores series and generates fundamentals in blocks of 100), five or more markets, books with dozens "
+             "of orders per side, ten or more sessions - and be invisible below that size.",
+    "stateleak": "STATE NOT RESET OR NOT COPIED: the break must come from state that should be fresh per step / per session / per run / "
+                 "per object but is shared or carried over (a mutable default, a class attribute, an alias of a settings dict or list "
+                 "instead of a copy, a counter not reset at a boundary, a list extended instead of replaced).",
+    "config": "CONFIGURATION SHAPE: the break must depend on a valid but less common SHAPE of the JSON configuration - groups created "
+              "with numMarkets / numAgents or from / to, chains of extends, agents listing several market groups, an index market "
+              "over a market group, several events in one session, a session list with different flags per session, names that are "
+              "prefixes of other names, two-digit ids - with the common shape behaving correctly.",
+}
+ORDER3 = ["plainslip", "symmetric", "scale", "stateleak", "config"]
+
 TEMPLATE = """You are working in a git worktree of the open-source Python project masanorihirano/pams (PAMS: a pure-Python agent-based artificial market simulator with a limit order book matching engine, sessions, events and stochastic fundamental price generation). The worktree is at {wt}. Work ONLY inside {wt}: do not read, list or modify /repo, /verif or any other directory outside {wt} (reading the Python standard library or site-packages is fine).
 
 Interpreter: /venv/bin/python (numpy, scipy, pytest installed). Run the project's test suite with:
@@ -106,7 +127,7 @@ def main():
     ap.add_argument("--props", default="")
     ap.add_argument("--shift", type=int, default=0, help="rotate the angle assignment")
     ap.add_argument("--no-worktree", action="store_true")
-    ap.add_argument("--set", type=int, default=1, help="1 = first set of angles, 2 = second set")
+    ap.add_argument("--set", type=int, default=1, help="1 = first set of angles, 2 = second set, 3 = third set")
     a = ap.parse_args()
     props = [json.loads(l) for l in open(os.path.join(HERE, "properties.jsonl")) if l.strip()]
     only = set(filter(None, a.props.split(",")))
@@ -122,7 +143,7 @@ def main():
             except Exception:  # noqa
                 continue
             taken.append('    - "%s"' % str(m.get("summary", ""))[:420].replace("\n", " "))
-        angles, order = (ANGLES, ORDER) if a.set == 1 else (ANGLES2, ORDER2)
+        angles, order = {1: (ANGLES, ORDER), 2: (ANGLES2, ORDER2), 3: (ANGLES3, ORDER3)}[a.set]
         angle = angles[order[(i + a.shift) % len(order)]]
         q = p.get("quantifier")
         quant = q.get("text") if isinstance(q, dict) else str(q)
